@@ -150,6 +150,8 @@ class Device(BaseDevice):
     def set_cbound(cbound):
       if not hasattr(cbound, '__len__') or len(cbound) != 4:
         raise ValueError(f'cbound must be a 4-tuple not "{cbound}"')
+      if not 0 <= cbound[2] < cbound[3] <= len(self):
+        raise ValueError('cbound range [%s, %s) must be a non-empty range within [0, %d)' % (cbound[2], cbound[3], len(self)))
       if cbound[1] <= cbound[0]:
         raise ValueError('max cbound (%f) must be > min cbound (%f)' % (cbound[1], cbound[0]))
       if self.lbounds[cbound[2]:cbound[3]].sum() > cbound[1]:
